@@ -62,7 +62,16 @@ JudgeRelativize(e) ==
   ELSE IF LeadingDotDots(e.out) > e.n THEN <<"too-many-parents", 0>>
   ELSE IF Resolve(e.base, e.out) # e.iri /\ ~(e.back.k = "ok" /\ e.back.out = e.iri) THEN <<"does-not-resolve-back", 0>>
   ELSE <<"ok", 0>>
+\* Namespace::new / Namespace::get: the namespace, and the namespace followed by the suffix, are IRI references
+JudgeNsGet(e) ==
+  IF e.panic THEN <<"panic", 0>>
+  ELSE IF e.new_ok # IsIriRef(e.ns) THEN <<"Namespace::new", 0>>
+  ELSE IF ~e.new_ok THEN <<"ok", 0>>
+  ELSE IF e.get_ok # IsIriRef(e.ns \o e.suffix) THEN <<"Namespace::get", 0>>
+  ELSE IF e.get_ok /\ e.iri # e.ns \o e.suffix THEN <<"NsTerm::iri", 0>>
+  ELSE <<"ok", 0>>
 Judge(e) == CASE e.ev = "Validate" -> JudgeValidate(e)
+              [] e.ev = "NsGet" -> JudgeNsGet(e)
               [] e.ev = "Resolve" -> JudgeResolve(e)
               [] e.ev = "AsBase" -> JudgeAsBase(e)
               [] e.ev = "Relativize" -> JudgeRelativize(e)
